@@ -142,6 +142,9 @@ type c20Owner struct {
 	Name string
 	Addr []byte // the account the owner string denotes
 	Str  string // the owner string placed in the message
+	// Foreign: a well-formed bech32 string that is NOT an account address of this chain (another prefix).
+	// It names no signer, so the stateless validation must refuse it; nothing else is judged for it.
+	Foreign bool
 }
 
 func c20Owners(tier string) []c20Owner {
@@ -172,6 +175,9 @@ func c20Owners(tier string) []c20Owner {
 	up.Name = "A20-uppercase-spelling"
 	up.Str = strings.ToUpper(up.Str)
 	o = append(o, up)
+	if fs, err := bech32.ConvertAndEncode("cosmos", o[0].Addr); err == nil {
+		o = append(o, c20Owner{Name: "A20-with-the-prefix-of-another-chain", Addr: o[0].Addr, Str: fs, Foreign: true})
+	}
 	if tier == "thorough" {
 		o = append(o, mk("D32", bytes.Repeat([]byte{0xFE}, 32)))
 	}
@@ -180,9 +186,10 @@ func c20Owners(tier string) []c20Owner {
 
 func c20Connections(tier string) []string {
 	if tier == "thorough" {
-		return []string{"connection-0", "connection-1", "connection-999"}
+		return []string{"connection-0", "connection-1", "connection-999", "connection-0 ", " connection-1"}
 	}
-	return []string{"connection-0", "connection-1"}
+	// the last one differs from the first only by a trailing blank: another connection id
+	return []string{"connection-0", "connection-1", "connection-0 "}
 }
 
 type c20Time struct {
@@ -682,6 +689,12 @@ func (d *c20Dims) evalWarm(idx, warm int) (res c20Result) {
 		msg = m2
 	}
 
+	if owner.Foreign {
+		if err := msg.ValidateBasic(); err == nil {
+			add("C20/owner-that-names-no-signer-accepted-by-stateless-validation", fmt.Sprintf("owner %q is not an account address of this chain (GetSigners() = %v) but ValidateBasic accepts the message", owner.Str, msg.GetSigners()), nil)
+		}
+		return
+	}
 	// --- signer ----------------------------------------------------------
 	signers := msg.GetSigners()
 	if len(signers) != 1 || !bytes.Equal(signers[0], owner.Addr) {
